@@ -14,7 +14,11 @@
 (***************************************************************************)
 EXTENDS DeriveCheck, GammaCheck
 
-VARIABLES l, glob, dict, pool, analysed
+VARIABLES l, glob, dict, pool, analysed,
+          errs,      \* slot |-> the error the LAST accepted analysis of that object produced (a function on a subset of the slots)
+          dirty      \* slots whose last analysis request was refused (the state of their cache is not part of any statement)
+
+CC == INSTANCE CovTrace      \* the identities of property C06, here with the errors the SPECIFICATION has on record
 
 Defaults == [S |-> "2", tau_exp |-> "0", N_sigma |-> "1"]
 EmptyDict == [S |-> <<>>, tau_exp |-> <<>>, N_sigma |-> <<>>]
@@ -28,35 +32,56 @@ EnvMatches(c) == /\ \A p \in {"S", "tau_exp", "N_sigma"} : REq(c.env.glob[p], gl
                        /\ Len(c.env.dict[p]) = Len(dict'[p])
                        /\ \A i \in DOMAIN dict'[p] : c.env.dict[p][i].name = dict'[p][i].name /\ REq(c.env.dict[p][i].v, dict'[p][i].v)
 
+SetErr(f, k, v) == [x \in DOMAIN f \cup {k} |-> IF x = k THEN v ELSE f[x]]
+
+\* c.ids: the slots asked for (repetitions allowed), c.res: [k = "ok", cov, corr] | [k = "exc"] | [k = "nan"]
+CheckCovReq(id, c) ==
+  LET n == Len(c.ids)
+      objs == [k \in 1..n |-> pool[c.ids[k]]]
+  IN IF \E k \in 1..n : c.ids[k] \in dirty THEN Skip(id, "an operand's last analysis request was refused")
+     ELSE IF ~CovConsistent(objs) THEN Skip(id, "operands carry one covariance input with different matrices (combining them is refused elsewhere)")
+     ELSE IF \E k \in 1..n : c.ids[k] \notin analysed THEN Verdict(id, "covariance of a never-analysed object must be refused", c.res.k = "exc")
+     ELSE IF \E k \in 1..n : c.ids[k] \notin DOMAIN errs THEN Verdict(id, "specification lost an error on record", FALSE)
+     ELSE IF \E k \in 1..n : errs[c.ids[k]] = "0" THEN Skip(id, "an operand has no error at all")
+     ELSE IF c.res.k # "ok" THEN Verdict(id, "covariance of analysed objects:" \o c.res.k, FALSE)
+     ELSE LET dv == [k \in 1..n |-> errs[c.ids[k]]] IN
+          /\ Verdict(id, "errors-on-record-are-the-objects'", \A k \in 1..n : REq(c.dvalues[k], dv[k]))
+          /\ CC!CheckCov(id, [objs |-> objs, cov |-> c.res.cov, corr |-> c.res.corr, dvalues |-> dv,
+                              perm |-> [k \in 1..n |-> k], cov_perm |-> c.res.cov, corr_perm |-> c.res.corr])
+          \* the same object asked for twice: fully correlated with itself
+          /\ Verdict(id, "same-object=>corr=1", \A a, b \in 1..n : c.ids[a] = c.ids[b] => RClose(c.res.corr[a][b], "1", "0", "1/1000000000000"))
+
 Operands(c) == [k \in DOMAIN c.ids |-> pool[c.ids[k]]]
 
 Step(c) ==
   LET id == c.id IN
   CASE c.ev = "reset" ->
-         /\ glob' = Defaults /\ dict' = EmptyDict /\ pool' = <<>> /\ analysed' = {}
+         /\ glob' = Defaults /\ dict' = EmptyDict /\ pool' = <<>> /\ analysed' = {} /\ errs' = <<>> /\ dirty' = {}
     [] c.ev = "setglobal" ->
-         /\ glob' = [glob EXCEPT ![c.p] = c.v] /\ UNCHANGED <<dict, pool, analysed>>
+         /\ glob' = [glob EXCEPT ![c.p] = c.v] /\ UNCHANGED <<dict, pool, analysed, errs, dirty>>
     [] c.ev = "setdict" ->
-         /\ dict' = [dict EXCEPT ![c.p] = DictSet(dict[c.p], c.e, c.v)] /\ UNCHANGED <<glob, pool, analysed>>
+         /\ dict' = [dict EXCEPT ![c.p] = DictSet(dict[c.p], c.e, c.v)] /\ UNCHANGED <<glob, pool, analysed, errs, dirty>>
     [] c.ev = "deldict" ->
-         /\ dict' = [dict EXCEPT ![c.p] = DictDel(dict[c.p], c.e)] /\ UNCHANGED <<glob, pool, analysed>>
+         /\ dict' = [dict EXCEPT ![c.p] = DictDel(dict[c.p], c.e)] /\ UNCHANGED <<glob, pool, analysed, errs, dirty>>
     [] c.ev = "new" ->          \* a primary observable enters the pool (slot c.slot = Len(pool) + 1)
          /\ Verdict(id, "slot", c.slot = Len(pool) + 1)
          /\ Verdict(id, "wellformed:" \o WFClause(c.obs), WellFormed(c.obs))
-         /\ pool' = Append(pool, c.obs) /\ UNCHANGED <<glob, dict, analysed>>
+         /\ pool' = Append(pool, c.obs) /\ UNCHANGED <<glob, dict, analysed, errs, dirty>>
     [] c.ev = "gm" ->
          /\ CheckGm(id, pool[c.slot], c.args, glob, dict, c.res)
          /\ analysed' = analysed \cup {c.slot}
+         /\ errs' = IF c.res.k = "ok" THEN SetErr(errs, c.slot, c.res.an.dvalue) ELSE errs
+         /\ dirty' = IF c.res.k = "ok" THEN dirty \ {c.slot} ELSE dirty \cup {c.slot}
          /\ UNCHANGED <<glob, dict, pool>>
     [] c.ev = "derive" ->       \* arithmetic on pooled objects (analysed or not): the result depends on their data only
          /\ CheckReal(id, c, c.expr, Operands(c), [k \in DOMAIN c.ids |-> k], c.res, c.mode = "step")
          /\ Verdict(id, "slot", c.slot = Len(pool) + 1)
          /\ pool' = Append(pool, IF c.res.k = "obs" THEN c.res.o ELSE [bad |-> TRUE])
-         /\ UNCHANGED <<glob, dict, analysed>>
+         /\ UNCHANGED <<glob, dict, analysed, errs, dirty>>
     [] c.ev = "reweight" ->     \* checked numerically by C05; here: flag, pool growth
          /\ Verdict(id, "reweighted-flag", c.res.k = "obs" /\ c.res.o.rew)
          /\ pool' = Append(pool, IF c.res.k = "obs" THEN c.res.o ELSE [bad |-> TRUE])
-         /\ UNCHANGED <<glob, dict, analysed>>
+         /\ UNCHANGED <<glob, dict, analysed, errs, dirty>>
     [] c.ev = "copy" ->         \* json round trip (reload) or pickle / deepcopy (clone) of a pooled object: the same data enter the pool again;
                                 \* the analysis travels with a clone only
          /\ CheckReal(id, [c EXCEPT !.mode = "step"], [op |-> "var", i |-> 1], <<pool[c.src]>>, <<1>>, c.res, TRUE)
@@ -64,21 +89,26 @@ Step(c) ==
          /\ Verdict(id, "analysis travels with a clone, not with a reload", c.analysed = (c.how = "clone" /\ c.src \in analysed))
          /\ pool' = Append(pool, IF c.res.k = "obs" THEN c.res.o ELSE [bad |-> TRUE])
          /\ analysed' = IF c.how = "clone" /\ c.src \in analysed THEN analysed \cup {Len(pool) + 1} ELSE analysed
+         /\ errs' = IF c.how = "clone" /\ c.src \in DOMAIN errs THEN SetErr(errs, Len(pool) + 1, errs[c.src]) ELSE errs
+         /\ dirty' = IF c.how = "clone" /\ c.src \in dirty THEN dirty \cup {Len(pool) + 1} ELSE dirty
          /\ UNCHANGED <<glob, dict>>
+    [] c.ev = "cov" ->          \* covariance / correlation of pooled objects: an observation of their data and of the errors of their LAST analyses
+         /\ CheckCovReq(id, c)
+         /\ UNCHANGED <<glob, dict, pool, analysed, errs, dirty>>
     [] c.ev = "final" ->        \* at the end of a history every pooled object still carries exactly its data
          /\ Verdict(id, "pool-size", Len(c.objs) = Len(pool))
          /\ Verdict(id, "data-altered-by-history", Len(c.objs) # Len(pool) \/ \A k \in DOMAIN pool : c.objs[k] = pool[k])
          /\ Verdict(id, "analysed-set", {k \in DOMAIN c.analysed : c.analysed[k]} = analysed)
-         /\ UNCHANGED <<glob, dict, pool, analysed>>
+         /\ UNCHANGED <<glob, dict, pool, analysed, errs, dirty>>
     [] c.ev = "abstract" ->     \* the abstract state of Session.tla at the end of a replayed behaviour against the object
          /\ Verdict(id, "reweighted-flag-vs-model", c.model.rew = c.code.rew)
          /\ Verdict(id, "ensembles-vs-model", c.model.ens = c.code.ens)
          /\ Verdict(id, "analysed-vs-model", c.model.analysed = c.code.analysed)
-         /\ UNCHANGED <<glob, dict, pool, analysed>>
-    [] OTHER -> Verdict(id, "unknown-event", FALSE) /\ UNCHANGED <<glob, dict, pool, analysed>>
+         /\ UNCHANGED <<glob, dict, pool, analysed, errs, dirty>>
+    [] OTHER -> Verdict(id, "unknown-event", FALSE) /\ UNCHANGED <<glob, dict, pool, analysed, errs, dirty>>
 
 Init == /\ l = 1 /\ LoadCases
-        /\ glob = Defaults /\ dict = EmptyDict /\ pool = <<>> /\ analysed = {}
+        /\ glob = Defaults /\ dict = EmptyDict /\ pool = <<>> /\ analysed = {} /\ errs = <<>> /\ dirty = {}
 Next == /\ l <= NCases
         /\ Step(Cases[l])
         \* the parameter slots observed in the implementation after the call equal the specification's
